@@ -8,6 +8,7 @@ from . import spec as SP
 from .engine import Res, State, NoneV, Ob, Outcome
 from .frontend import loops_of
 from .sorts import SV as SP_SV
+SV = SP_SV
 
 
 def split_conj(src):
@@ -111,6 +112,7 @@ class LoopMixin:
         st.assume(z3.ForAll([i, j], z3.Implies(z3.And(0 <= i, i < j, j < z3.Length(ks)), ks[i] != ks[j]),
                             patterns=[z3.MultiPattern(ks[i], ks[j])]))
         st.assume(z3.ForAll([i], z3.Implies(z3.And(0 <= i, i < z3.Length(ks)), z3.Select(dom, ks[i])), patterns=[ks[i]]))
+        st.assume(z3.Length(ks) == self.set_card(dom))
         return ks
 
     def ex_For(self, s, st):
@@ -301,7 +303,8 @@ class LoopMixin:
             n = z3.Length(sq)
         sqv = SV("seq", sq, h=hint) if sq is not None else SV("none")
         # 1. invariant holds initially
-        self.inv_eval(st, spec, {"_i": SV("int", z3.IntVal(0)), "_s": sqv}, tag + ":init", True)
+        empty_done = SV("seq", z3.Empty(SeqV), h=hint)
+        self.inv_eval(st, spec, {"_i": SV("int", z3.IntVal(0)), "_s": sqv, "_done": empty_done}, tag + ":init", True)
         # 2. arbitrary iteration
         body_names = assigned_names(s.body) | assigned_names([ast.Assign(targets=[s.target], value=ast.Constant(value=None))])
         loop_heap0 = dict(st.heap)
@@ -315,7 +318,17 @@ class LoopMixin:
         i = self.fresh("i", I)
         it.assume(i >= 0)
         it.assume(i < n)
-        self.inv_eval(it, spec, {"_i": SV("int", i), "_s": sqv}, tag, False)
+        # decomposition of the iterated sequence (DESIGN 3.1): _s == _done ++ [element] ++ rest, |_done| == i
+        done = self.fresh("done", SeqV)
+        rest = self.fresh("rest", SeqV)
+        if sq is not None:
+            it.assume(sq == z3.Concat(done, z3.Unit(sq[i]), rest))
+            it.assume(z3.Length(done) == i)
+        if mode is not None and mode[0] in ("items", "keys", "values"):
+            it.assume(z3.Select(self.dom_of(it, mode[1]), sq[i]))      # ground instance of the enumeration axiom
+        done_sv = SV("seq", done, h=hint)
+        done_next = SV("seq", z3.Concat(done, z3.Unit(sq[i])) if sq is not None else done, h=hint)
+        self.inv_eval(it, spec, {"_i": SV("int", i), "_s": sqv, "_done": done_sv}, tag, False)
         it.trail.append("loop#%s:iter" % k)
         it.writes = []
         outs = []
@@ -326,7 +339,7 @@ class LoopMixin:
                 continue
             for bo in self.exec_block(s.body, ao.st):
                 if bo.kind in ("normal", "continue"):
-                    self.inv_eval(bo.st, spec, {"_i": SV("int", i + 1), "_s": sqv}, tag + ":keep", True)
+                    self.inv_eval(bo.st, spec, {"_i": SV("int", i + 1), "_s": sqv, "_done": done_next}, tag + ":keep", True)
                     self.loop_frame(bo.st, spec, k, loop_heap0)
                 elif bo.kind == "break":
                     self.loop_frame(bo.st, spec, k, loop_heap0)
@@ -336,7 +349,7 @@ class LoopMixin:
                     bo.st.writes = st.writes + self.summary_writes(spec)
                     outs.append(bo)
         # 3. exit: invariant at i == n
-        self.inv_eval(ex, spec, {"_i": SV("int", n), "_s": sqv}, tag, False)
+        self.inv_eval(ex, spec, {"_i": SV("int", n), "_s": sqv, "_done": sqv}, tag, False)
         ex.trail.append("loop#%s:exit" % k)
         ex.writes = st.writes + self.summary_writes(spec)
         if self.feasible(ex):
@@ -489,6 +502,7 @@ class LoopMixin:
         fr = st.frames[fid]
         fr["$cls"] = cls.name if cls is not None else None
         names = [p.arg for p in a.posonlyargs + a.args + a.kwonlyargs]
+        self.param_names = names + ([a.vararg.arg] if a.vararg else []) + ([a.kwarg.arg] if a.kwarg else [])
         self.harr(st, "$alloc")
         fk = self.func_kind(fn)
         for i, p in enumerate(names):
@@ -519,6 +533,11 @@ class LoopMixin:
             st.assume(self.spec_eval(st, src, fid, st.heap, None, {}))
         st.heap0 = dict(st.heap)
         st.entry_frame = dict(fr)
+        # ghost code at entry (e.g. an ILogger.write implementation records "this write" itself)
+        for comp, gsrc in c.extra.get("ghost_entry", []):
+            gv = self.spec_value(st, gsrc, fid, st.heap0, st.entry_frame, {})
+            self.harr(st, comp)
+            st.heap[comp] = gv.t
         if c.decreases:
             st.snap["$measure"] = self.spec_value(st, c.decreases, fid, st.heap0, st.entry_frame, {}).t
         self.vacuous = not self.feasible(st)
@@ -551,6 +570,10 @@ class LoopMixin:
     def check_exit(self, c, o, fid):
         st = o.st
         st.fid = fid
+        # in postconditions a parameter name denotes the argument object (its entry binding), even if the body rebinds it
+        for pname in self.param_names:
+            if pname in st.entry_frame:
+                st.frames[fid][pname] = st.entry_frame[pname]
         if o.kind in ("break", "continue"):
             raise Unsupported("break/continue at function level")
         if o.kind in ("normal", "return"):
